@@ -37,7 +37,7 @@ def run_seed(name):
         shutil.rmtree(w, ignore_errors=True)
 
 def main():
-    names = sys.argv[1:] or sorted(os.listdir(os.path.join(VERIF, "seeded")))
+    names = sys.argv[1:] or sorted(n for n in os.listdir(os.path.join(VERIF, "seeded")) if os.path.isdir(os.path.join(VERIF, "seeded", n)))
     res = {}
     with ThreadPoolExecutor(max_workers=6) as ex:
         for name, fired, err in ex.map(run_seed, names):
